@@ -58,7 +58,7 @@ def rand_query(h, orc):
         q['mut'] = h.chance(70)
     if kind == 'read':
         q['cmp'] = h.pick(orc.get('cmps', ['METADATA', 'HASH']))
-        q['how'] = h.pick(['declare', 'binary', 'declare'])
+        q['how'] = h.pick(['declare', 'binary', 'text' if orc.get('read_text') else 'declare'])
     if kind == 'walk':
         q['td'] = h.chance(50)
     return q
@@ -151,7 +151,7 @@ def rand_root(rnd, orc, nst, crash_pct=20):
                 q['mut'] = rnd.random() < 0.7
             if kind == 'read':
                 q['cmp'] = rnd.choice(['METADATA', 'HASH'])
-                q['how'] = rnd.choice(['declare', 'binary'])
+                q['how'] = rnd.choice(['declare', 'text'] if orc.get('read_text') else ['declare', 'binary'])
             if kind == 'walk':
                 q['td'] = rnd.random() < 0.5
             root.append(q)
@@ -1008,6 +1008,7 @@ def make_scenario(seed, profile='general'):
         'raise': P.get('raise', 10), 'nocreate': P.get('nocreate', 6), 'nonjson': P.get('nonjson', 2),
         'nocreate2': P.get('nocreate2', 0), 'fixed_mt': P.get('fixed_mt', 0), 'sizes': P.get('sizes', SIZES),
         'falsy_ret': P.get('falsy_ret', 0), 'base_raise': P.get('base_raise', 0), 'catch_base': P.get('catch_base', 0),
+        'read_text': True,          # read_text next to declare_read / read_binary (regress files predate this key)
         'p_probe': int(100 * P.get('p_probe', 0) / 4),
     }
     if P.get('exotic'):
